@@ -43,7 +43,10 @@
  * ghost names, and every link stays among the named nodes -- nothing about order, length, cycles, sizes, digests */
 #define DR_NODE_NAMED(r) (DR_ABSENT(r) || (__CPROVER_rw_ok((r), sizeof(zckChunk)) && DR_IN_LIST((r)->next) && (r)->src != NULL && __CPROVER_rw_ok((r)->src, sizeof(zckChunk))))
 #define DR_NAMED(dl) (DR_NONE->src == &g_dr_none_tgt && DR_NODE_NAMED(g_dr1) && DR_NODE_NAMED(g_dr2) && DR_NODE_NAMED(g_dr3) && ((dl)->range == NULL || (DR_IN_LIST((dl)->range->index.first) && DR_IN_LIST((dl)->range->index.current))))
-#define DL_CTL(dl) (DL_BASE(dl) && CHUNK_HASH_WF((dl)->zck) && DR_NAMED(dl) && ((dl)->tgt_check == NULL || DR_IS_TGT((dl)->tgt_check)))
+/* a live running chunk hash has the chunk checksum type (hash_init's contract says nothing about the type field
+ * after a failed initialisation, so nothing is claimed about it while there is no context) */
+#define DL_HASH_T(dl) ((dl)->zck->check_chunk_hash.ctx == NULL || (dl)->zck->check_chunk_hash.type == &(dl)->zck->chunk_hash_type)
+#define DL_CTL(dl) (DL_BASE(dl) && DL_HASH_T(dl) && DR_NAMED(dl) && ((dl)->tgt_check == NULL || DR_IS_TGT((dl)->tgt_check)))
 /* positional part (C05): while a chunk is being filled, the descriptor stands at the next byte of its
  * extent, the running hash has been fed exactly the bytes written so far, and the chunk is not valid */
 #define DL_STATE(dl) ((dl)->tgt_check == NULL ? (dl)->write_in_chunk == 0 : \
@@ -64,8 +67,9 @@
 #define DR_VALID_KEPT1(r) (DR_ABSENT(r) || DR_VALID0(r) != 1 || (r)->src->valid == 1)
 /* a chunk is newly marked failed (-1) only by a call that reports 0 */
 #define DR_FAIL_REPORTED1(r, ret) (DR_ABSENT(r) || DR_VALID0(r) == -1 || (r)->src->valid != -1 || (ret) == 0)
-/* a chunk that was valid when the call began is not the chunk being filled when it ends */
-#define DR_VALID_NOT_SELECTED1(dl, r) (DR_ABSENT(r) || DR_VALID0(r) != 1 || (dl)->tgt_check != (r)->src)
+/* a chunk that was valid when the call began is not newly selected as the chunk being filled (a context in error
+ * may carry any tgt_check in and out: the state invariant is only required of error-free contexts) */
+#define DR_VALID_NOT_SELECTED1(dl, r) (DR_ABSENT(r) || DR_VALID0(r) != 1 || (dl)->tgt_check != (r)->src || (dl)->tgt_check == V_OLD((dl)->tgt_check))
 #define DL_RANGE_ASSIGNS(dl) dl->write_in_chunk, dl->dl_chunk_data, dl->tgt_check, dl->tgt_number, dl->zck->error_state, dl->zck->check_chunk_hash.type, dl->zck->check_chunk_hash.ctx; \
     dl->range != NULL: dl->range->index.current; g_dr1->src->valid, g_dr2->src->valid, g_dr3->src->valid; \
     g_fpos, g_wr_bytes, g_io_failed, g_win_bad, g_ww_hit, g_ww_val, g_hu_total, g_hu_seen, g_hu_ptr, g_hu_final, g_hu_inits, g_fin_val, g_fin_total, g_fin_seen, g_fin_ptr, g_mc_diff
